@@ -805,7 +805,6 @@ func Run() int {
 			}
 			seen[c.String()] = true
 			cfgs = append(cfgs, c)
-			distinct.Add(c.String())
 		}
 	}
 	type cellKey struct{ expect, targets, fault string }
@@ -847,6 +846,7 @@ func Run() int {
 		for _, s := range res.LibOut {
 			libOuts.Add(s)
 		}
+		distinct.Add(c.String())
 		mu.Lock()
 		done++
 		ck := cellOf(res)
@@ -890,7 +890,7 @@ func Run() int {
 	for _, ck := range cks {
 		fs := cellFails[ck]
 		sort.Slice(fs, func(i, j int) bool { return fs[i].C.String() < fs[j].C.String() })
-		uniform := len(fs) == cellTotal[ck] && !capped
+		uniform := len(fs) == cellTotal[ck] // cellTotal counts evaluated runs (all of them unless the deadline cut the sweep)
 		for _, f := range fs {
 			if f.Symptoms != fs[0].Symptoms {
 				uniform = false
